@@ -245,8 +245,8 @@ WStep(a) ==
 GenNext ==
   /\ W.n < MaxDepth
   /\ \E x \in {GenDraw} :
-       LET tl == IF x.a.a = "DelTopic" /\ x.a.t \in P2Ps THEN W.patt[x.a.t] # {} ELSE TRUE
-           r == SeqStep(S, x.a, x.ev, [ok |-> TRUE, denied |-> FALSE, fresh |-> TRUE, tl |-> tl]) IN
+       LET tl == IF "t" \in DOMAIN x.a /\ x.a.t \in P2Ps THEN W.patt[x.a.t] # {} ELSE TRUE
+           r == SeqStep(S, x.a, x.ev, [ok |-> TRUE, denied |-> FALSE, fresh |-> TRUE, tl |-> tl, noname |-> {}]) IN
        /\ S' = r.st
        /\ W' = WStep(x.a)
        /\ hist' = Append(hist, x.a)
